@@ -696,3 +696,32 @@ func init() {
 		return nil
 	}
 }
+
+
+func init() {
+	// bun INSERT built by the store (InsertLog): opaque; Model is recorded and Exec hands over to the harness:
+	//   func verifBunExecInsert(model any) (sql.Result, error)
+	harnessFn := func(fr *frame, name string) *ssa.Function {
+		for _, p := range fr.i.prog.AllPackages() {
+			if f := p.Func(name); f != nil {
+				return f
+			}
+		}
+		panic(engineErr("the harness does not define " + name))
+	}
+	for _, recv := range []string{"(github.com/uptrace/bun.Tx)", "(*github.com/uptrace/bun.Tx)", "(*github.com/uptrace/bun.DB)", "(github.com/uptrace/bun.Conn)"} {
+		intrinsics[recv+".NewInsert"] = func(fr *frame, a []value) value {
+			return newCell(fr.i.namedType("github.com/uptrace/bun", "InsertQuery"))
+		}
+	}
+	intrinsics["(*github.com/uptrace/bun.InsertQuery).Model"] = func(fr *frame, a []value) value {
+		bunLastModel = a[1]
+		return a[0]
+	}
+	for _, m := range []string{"ModelTableExpr", "Returning", "Value", "Column", "On", "Set", "Ignore"} {
+		intrinsics["(*github.com/uptrace/bun.InsertQuery)."+m] = func(fr *frame, a []value) value { return a[0] }
+	}
+	intrinsics["(*github.com/uptrace/bun.InsertQuery).Exec"] = func(fr *frame, a []value) value {
+		return call(fr.i, fr, 0, harnessFn(fr, "verifBunExecInsert"), []value{bunLastModel})
+	}
+}
